@@ -382,6 +382,20 @@ class hash_element_scalars:
         return hash(x)
 
 
+@contract('serif.vector.Vector._hash_element', props=['C16'], variant='floats')
+class hash_element_floats:
+    """C16 (float elements): NaN - the one float that differs from itself - has a fixed code; every
+    other float, the infinities included, keeps Python's own hash(), so inf, -inf and NaN stay
+    three different elements for the fingerprint."""
+    params = {'x': 'float'}
+
+    def returns(x):
+        import math
+        if math.isnan(x):
+            return 0xDEADBEEFCAFEBABE
+        return hash(x)
+
+
 @loop_invariant('serif.vector.Vector._compute_fingerprint_full', 0, havoc={'total': 'int', 'h': 'int'})
 def fp_loop_inv(k, self, total):
     return total == S.fp_prefix(self._underlying, k)
